@@ -60,6 +60,10 @@ def parseD (l : List String) : Option (Nat × List Int × Nat × String × Strin
 def run (c : Case) : CaseOut := Id.run do
   let mode := cfgGet c "mode" "win"
   let n := (cfgGet c "n" "1").toNat?.getD 1
+  -- cfg `nest 1`: every GROUP BY column is a dotted path; the window key is built as the code builds it
+  let nest := cfgGet c "nest" "0" == "1"
+  let arity := (cfgGet c "arity" "0").toNat?.getD 0
+  let quals := List.replicate arity nest
   let mut obs : List (List (List String)) := []
   let mut spec := "ok"
   let mut tags : List String := []
@@ -78,7 +82,7 @@ def run (c : Case) : CaseOut := Id.run do
       | some t, some i =>
         let r : Row := (t, i)
         rows := rows ++ [r]
-        let k := encCounting t
+        let k := encCounting (Counting.windowTuple Val.null quals t)
         if !(Counting.bufOf st k).isEmpty then carried := true
         let res := Counting.add n st k r
         st := res.1
@@ -129,6 +133,8 @@ def run (c : Case) : CaseOut := Id.run do
     tags := "exact-multiple" :: tags
   if tuples.any fun t => (CountingSpec.rowsOf nrows t).length < n then tags := "fewer-than-N" :: tags
   if tuples.length > 1 then tags := "several-keys" :: tags
-  return { obs := obs, spec := spec, tags := tags }
+  -- known-finding classifier: negation of the hypothesis of `windowKey_determines_group_partial`
+  let cls := if quals.all (fun q => !q) then "none" else "qualified-group-column"
+  return { obs := obs, spec := spec, tags := tags, cls := cls }
 
 end DrvC09
